@@ -83,6 +83,7 @@ class Check:
         same = [f for f in self.findings if f.key == key]
         if len(same) >= 3:
             return
+        what = what if len(str(what)) <= 600 else str(what)[:600] + " ..."
         self.findings.append(Finding(clause, key, what, case, kind, obligation, solver, reproduced))
 
     def function(self, ex, cls, name, mod=None):
